@@ -61,6 +61,13 @@ static bool valid_ident(const std::string &r, bool dotted) {
   return !start;
 }
 
+// std::string of symbolic length n <= LMAX over the bytes of b: a full-length copy cut to n (a constructor with a
+// symbolic length makes every later operation walk a symbolic-size memcpy)
+static void set_name(std::string &name, const char *b, int n) {
+  name.assign(std::string(b, (size_t)LMAX));
+  name._M_set_length((size_t)n);
+}
+
 // symbolic name: returns length, fills b[0..LMAX]
 static int sym_name(char *b) {
   int len = nondet_int();
@@ -71,10 +78,11 @@ static int sym_name(char *b) {
 }
 
 // Well-formed C++ (scoped) name: components [A-Za-z_][A-Za-z0-9_]* joined by "::"; a blank only between two
-// identifier characters (as in "unsigned int").  all_letter_words: every component has, after dropping '_'/' '
-// separators, a first character that is a letter (otherwise the camelCase fold starts with a digit or is empty).
-static bool well_formed(const char *b, int n, bool scoped, bool *letter_words) {
-  bool lw = true;
+// identifier characters (as in "unsigned int").  has_words: every component has a character other than '_' (a
+// component made of underscores only folds to nothing); letter_words: moreover the first such character of every
+// component is a letter (otherwise the camelCase fold of the component starts with a digit).
+static bool well_formed(const char *b, int n, bool scoped, bool *letter_words, bool *has_words) {
+  bool lw = true, hw = true;
   bool comp_start = true;     // at the first character of a component
   bool seen_word = false;     // component already has a non-separator character
   for (int i = 0; i < LMAX; i++) {
@@ -84,7 +92,7 @@ static bool well_formed(const char *b, int n, bool scoped, bool *letter_words) {
       if (!scoped || comp_start) return false;
       if (!(i + 1 < n && b[i + 1] == ':')) return false;           // pairs only
       if (!(i + 2 < n) || b[i + 2] == ':') return false;           // followed by a component
-      if (!seen_word) lw = false;
+      if (!seen_word) { lw = false; hw = false; }
       i++; comp_start = true; seen_word = false;
       continue;
     }
@@ -97,8 +105,9 @@ static bool well_formed(const char *b, int n, bool scoped, bool *letter_words) {
     if (c != '_' && !seen_word) { seen_word = true; if (!is_letter(c)) lw = false; }
   }
   if (comp_start) return false;
-  if (!seen_word) lw = false;
+  if (!seen_word) { lw = false; hw = false; }
   *letter_words = lw;
+  *has_words = hw;
   return true;
 }
 
@@ -106,12 +115,16 @@ static bool well_formed(const char *b, int n, bool scoped, bool *letter_words) {
 extern "C" void harness_c02_class_name() {
   char b[LMAX + 1];
   int n = sym_name(b);
-  bool lw;
-  ASSUME(well_formed(b, n, true, &lw));
+  bool lw, hw;
+  ASSUME(well_formed(b, n, true, &lw, &hw));
   bool mangle = nondet_bool();
   mangle_names = nondet_bool();                // -nomangle given or not
   bool fold = mangle && mangle_names;
-  std::string name(b);
+  // a name (component) made of underscores only folds to the empty string (the generator prints an error
+  // message for an empty class name): excluded from the camelCase domain
+  ASSUME(!fold || hw);
+  std::string name;
+  set_name(name, b, n);
   std::string r = classNameFromCppName(name, mangle);
 
   // reference: "::" -> ".", camelCase fold of every '_'/' ' separated word (first letter of each word upper case)
@@ -150,12 +163,14 @@ extern "C" void harness_c02_method_name() {
   // the "__py__" prefix convention: stripped first, the rest must be a well-formed name
   int skip = (n > 6 && b[0] == '_' && b[1] == '_' && b[2] == 'p' && b[3] == 'y' && b[4] == '_' && b[5] == '_') ? 6 : 0;
   ASSUME(!(n == 6 && buf_eq(b, 6, "__py__")));
-  bool lw;
-  ASSUME(well_formed(b + skip, n - skip, false, &lw));
+  bool lw, hw;
+  ASSUME(well_formed(b + skip, n - skip, false, &lw, &hw));
   bool mangle = nondet_bool();
   mangle_names = nondet_bool();
   bool fold = mangle && mangle_names;
-  std::string name(b);
+  ASSUME(!fold || hw);
+  std::string name;
+  set_name(name, b, n);
   std::string cls("Cls");
   std::string r = methodNameFromCppName(name, cls, mangle);
 
@@ -192,34 +207,49 @@ extern "C" void harness_c02_method_name() {
 }
 
 // ---- keywords (concrete list) -----------------------------------------------------------------------------------
+// (noinline: one frame per keyword, so that CBMC's per-frame loop counters start afresh)
+static void __attribute__((noinline)) keyword_case(const char *k) {
+  std::string cls("Cls");
+  std::string kw(k);
+  std::string esc = std::string("_") + kw;
+  std::string w = kw;
+  ASSERT(checkKeyword(w) == esc, "C02 checkKeyword prefixes every Python keyword with '_'");
+  ASSERT(classNameFromCppName(kw, false) == esc, "C02 a class/constant named like a Python keyword is exposed as _keyword");
+  if (kw != "print") {
+    ASSERT(methodNameFromCppName(kw, cls, false) == esc, "C02 a method named like a Python keyword is exposed as _keyword");
+  } else {
+    ASSERT(methodNameFromCppName(kw, cls, false) == "Cprint", "C02 a method named print is exposed as Cprint");
+  }
+}
+
+#ifndef KW_FROM
+#define KW_FROM 0
+#endif
+#ifndef KW_TO
+#define KW_TO 1000
+#endif
 extern "C" void harness_c02_keywords() {
   mangle_names = true;
-  std::string cls("Cls");
   for (int k = 0; REF_KEYWORDS[k]; k++) {
-    std::string kw(REF_KEYWORDS[k]);
-    std::string esc = std::string("_") + kw;
-    std::string w = kw;
-    ASSERT(checkKeyword(w) == esc, "C02 checkKeyword prefixes every Python keyword with '_'");
-    ASSERT(classNameFromCppName(kw, false) == esc, "C02 a class/constant named like a Python keyword is exposed as _keyword");
-    if (kw != "print") {
-      ASSERT(methodNameFromCppName(kw, cls, false) == esc, "C02 a method named like a Python keyword is exposed as _keyword");
-    }
-    // a keyword followed by one more symbolic identifier character is no keyword any more (all keywords + 1 char are not keywords)
-    char c = nondet_char();
-    ASSUME(is_idchar(c));
-    std::string longer = kw + c;
-    bool still_kw = ref_is_keyword(longer.data(), (int)longer.size());
-    std::string w2 = longer;
-    ASSERT(still_kw || checkKeyword(w2) == longer, "C02 checkKeyword leaves non-keywords unchanged");
+    if (k < KW_FROM || k >= KW_TO) continue;
+    if (nondet_bool()) goto done;      // see harness_c16_library_order: keeps the end reachable
+    keyword_case(REF_KEYWORDS[k]);
   }
+done:
   WITNESS();
 }
 
 // ---- operators (concrete list: the spellings cppparser produces, "operator " + token, "unary" appended for unary) ----
 static const char *const REF_OPERATORS[][2] = {
+#ifndef ONLY_LSHIFT
   { "operator ==", "__eq__" }, { "operator !=", "__ne__" }, { "operator <", "__lt__" }, { "operator >", "__gt__" },
   { "operator <=", "__le__" }, { "operator >=", "__ge__" }, { "operator <=>", "__cmp__" },
-  { "operator <<", "__lshift__" }, { "operator >>", "__rshift__" },
+#endif
+#ifdef ONLY_LSHIFT
+  { "operator <<", "__lshift__" },
+#endif
+#ifndef ONLY_LSHIFT
+  { "operator >>", "__rshift__" },
   { "operator ()", "__call__" }, { "operator []", "__getitem__" },
   { "operator ^", "__xor__" }, { "operator %", "__mod__" }, { "operator ~unary", "__invert__" },
   { "operator &", "__and__" }, { "operator |", "__or__" }, { "operator +", "__add__" }, { "operator -", "__sub__" },
@@ -233,7 +263,16 @@ static const char *const REF_OPERATORS[][2] = {
   { "operator --unary", "decrement" }, { "operator --", "decrement" }, { "operator !", "logicalNot" },
   { "operator &&", "logicalAnd" }, { "operator ||", "logicalOr" }, { "operator ,", "concatenate" },
   { "operator ->", "dereference" },
+#endif
   { 0, 0 } };
+
+static void __attribute__((noinline)) operator_case(const char *from, const char *to, bool mangle) {
+  std::string cls("Cls");
+  std::string op(from);
+  std::string r = methodNameFromCppName(op, cls, mangle);
+  ASSERT(r == to, "C02 every C++ operator is exposed under its Python special-method name");
+  ASSERT(valid_ident(r, false), "C02 operator method name is a valid Python identifier");
+}
 
 #ifndef OP_FROM
 #define OP_FROM 0
@@ -241,16 +280,20 @@ static const char *const REF_OPERATORS[][2] = {
 #ifndef OP_TO
 #define OP_TO 1000
 #endif
+#ifndef MODES
+#define MODES 1       // 1: mangle=false only (the primary name); 3: also mangle=true with and without -nomangle
+#endif
 extern "C" void harness_c02_operator_names() {
-  std::string cls("Cls");
-  bool mangle = nondet_bool();
-  mangle_names = nondet_bool();
-  for (int k = 0; REF_OPERATORS[k][0]; k++) {
-    if (k < OP_FROM || k >= OP_TO) continue;
-    std::string op(REF_OPERATORS[k][0]);
-    std::string r = methodNameFromCppName(op, cls, mangle);
-    ASSERT(r == REF_OPERATORS[k][1], "C02 every C++ operator is exposed under its Python special-method name");
-    ASSERT(valid_ident(r, false), "C02 operator method name is a valid Python identifier");
+  // the settings of (mangle argument, -nomangle) that differ, concretely (everything in this query is concrete:
+  // a symbolic flag would make every intermediate string symbolic)
+  for (int mode = 0; mode < MODES; mode++) {
+    mangle_names = (mode != 2);
+    for (int k = 0; REF_OPERATORS[k][0]; k++) {
+      if (k < OP_FROM || k >= OP_TO) continue;
+      if (nondet_bool()) goto done;      // see harness_c16_library_order: keeps the end reachable
+      operator_case(REF_OPERATORS[k][0], REF_OPERATORS[k][1], mode != 0);
+    }
   }
+done:
   WITNESS();
 }
